@@ -97,6 +97,38 @@ func runValOps(payload []*Sx) *Sx {
 			consistent = false
 		}
 	}
+	// constructor inputs of EVERY size, the empty ones included: an empty (non-nil) map, an empty and a one-element slice, then mutated
+	{
+		em := types.RecordMap{}
+		er := types.NewRecord(em)
+		em["late"] = types.Long(1)
+		one := types.RecordMap{"k": types.Long(1)}
+		or := types.NewRecord(one)
+		one["k"] = types.Long(2)
+		delete(one, "k")
+		if er.Len() != 0 || !er.Equal(types.Record{}) || string(er.MarshalCedar()) != "{}" || or.Len() != 1 || !or.Equal(types.NewRecord(types.RecordMap{"k": types.Long(1)})) ||
+			!types.NewSet(er).Contains(types.Record{}) {
+			immut = false
+		}
+		es := make([]types.Value, 0, 4)
+		eset := types.NewSet(es...)
+		es = append(es, types.Long(1))
+		_ = es
+		o1 := []types.Value{types.Long(1)}
+		oset := types.NewSet(o1...)
+		o1[0] = types.Long(2)
+		if eset.Len() != 0 || !eset.Equal(types.NewSet()) || oset.Len() != 1 || !oset.Contains(types.Long(1)) {
+			immut = false
+		}
+		// accessor outputs of empty values are the caller's too
+		mm := er.Map()
+		if mm != nil {
+			mm["x"] = types.Long(1)
+		}
+		if er.Len() != 0 {
+			immut = false
+		}
+	}
 	// every byte-slice accessor of every value: scribbling over what it returned must not change the value (or any equal one)
 	scribble := func(b []byte) {
 		for i := range b {
